@@ -123,7 +123,9 @@ func abortReach(c *Ctx, rule string, roots []*ssa.Function, scope map[string]boo
 		names = names[:400]
 	}
 	c.extra[rule+"_functions"] = names
-	c.Floor(rule, "functions reachable from the entry points", len(fns), 20)
+	if len(scope) > 1 {
+		c.Floor(rule, "functions reachable from the entry points", len(fns), 20)
+	}
 }
 
 // loopSurvival: within fn, every call to one of handlerIDs sits in a loop, and
